@@ -967,15 +967,46 @@ func (e *Enc) checkExit() error {
 			if results == nil {
 				se = e.specEnv(e.entry, exitState, []Term{})
 			}
+			// With several return sites and no exit hooks the postconditions are proved once per return site, in
+			// that site's own state: no if-then-else merged heaps, which keeps the queries small and stable. Each
+			// clause is one obligation (the conjunction over the sites).
+			hasExitHook := false
+			for _, h := range fc.Hooks {
+				if h.When == "exit" {
+					hasExitHook = true
+				}
+			}
+			perSite := !hasExitHook && len(e.rets) > 1 && len(e.rets) <= 8
+			evalAt := func(cl Clause, what string) (Term, error) {
+				if !perSite {
+					return se.evalBool(cl.Expr)
+				}
+				var parts []Term
+				for _, r := range e.rets {
+					rse := e.specEnv(e.entry, r.state, r.results)
+					if r.results == nil {
+						rse = e.specEnv(e.entry, r.state, []Term{})
+					}
+					saveG := e.curGuard
+					e.curGuard = r.cond
+					t, err := rse.evalBool(cl.Expr)
+					e.curGuard = saveG
+					if err != nil {
+						return Term{}, err
+					}
+					parts = append(parts, Implies(r.cond, t))
+				}
+				return And(parts...), nil
+			}
 			for _, cl := range fc.Ensures {
-				t, err := se.evalBool(cl.Expr)
+				t, err := evalAt(cl, "ensures")
 				if err != nil {
 					return fmt.Errorf("%s:%d: ensures: %v", cl.File, cl.Line, err)
 				}
 				e.oblige("ensures", cl.Label, cl.Props, t, "postcondition: "+cl.Text, e.fn.Pos())
 			}
 			for _, cl := range fc.Invs {
-				t, err := se.evalBool(cl.Expr)
+				t, err := evalAt(cl, "inv")
 				if err != nil {
 					return fmt.Errorf("%s:%d: inv: %v", cl.File, cl.Line, err)
 				}
